@@ -245,6 +245,22 @@ class GenIter(IterVal):
         if ety:
             run.assume_type(v, ety)
         run.heap['gen.pos'] = z3.Store(run.field('gen.pos'), a, z3.simplify(self.pos0 + k + 1))
+        gy = run.gen_yields.get(z3.simplify(a).sexpr())
+        if gy is not None:
+            # every item satisfies the generator's `yields` clauses (those that speak about the item and the
+            # arguments only: allocation / ghost-output notions are relative to the generator's own frame)
+            c, fn, rel, env = gy
+            for cl in c.of('yields'):
+                names = {n.id for n in ast.walk(cl.expr) if isinstance(n, ast.Name)}
+                if names & {'fresh', 'allocated', 'old', 'yielded_concat', 'yielded_count'}:
+                    continue
+                e2 = dict(env)
+                e2['item'] = v
+                run.frames.append(Frame(fn, rel, e2, c))
+                try:
+                    run.assume_spec(cl.expr)
+                finally:
+                    run.frames.pop()
         return v
 
     def in_range(self, run, k):
@@ -850,7 +866,23 @@ class CallsMixin:
         return env
 
     def call_generator(self, c, fv, args, kwargs, node):
+        fn = fv.node
+        env = self.bind_args(fn.args, args, kwargs, fv.self_val, node)
+        env = {k: (self.val(v) if (is_val(v) or isinstance(v, Const)) else v) for k, v in env.items()}
+        rel = c.target.split('::')[0]
+        cname = c.target.split('::')[1]
+        # the generator's preconditions are the caller's obligation at the call (its body runs when it is consumed)
+        self.frames.append(Frame(fn, rel, env, c))
+        try:
+            for cl in c.of('requires'):
+                g = self.ev_spec(cl.expr)
+                self.frames.pop()
+                self.oblige(g, 'pre', 'call:%s:pre:%s' % (cname, cl.tag or self.snippet(cl.expr)), node)
+                self.frames.append(Frame(fn, rel, env, c))
+        finally:
+            self.frames.pop()
         a = self.new_addr('gen')
+        self.gen_yields[z3.simplify(a).sexpr()] = (c, fn, rel, env)
         n = self.fresh('gen_n', I)
         exc = self.fresh('gen_exc', I)
         self.assume(n >= 0)
